@@ -1213,3 +1213,135 @@ func c18r13(rc *core.RC) {
 		rc.Unknown("encoder/object-walkers", token.NoPos, "found %d colon tests in compactObject/indentObject (confirmed: 2)", n)
 	}
 }
+
+// ---- C18.R14 the \u branch of the string scanner examines four digits and steps over four ----
+
+// compactString is the validator of every string in Compact, Indent and marshaler output. Behind `\u` exactly four
+// bytes have to be hexadecimal digits, and the cursor then moves past those four. The loop bounds and the index
+// expression are evaluated as linear forms over the cursor: the offsets examined have to be cursor+1 … cursor+4 and
+// the advance has to be 4. A loop that stops one short (`i < end` with end the index of the last digit) lets any
+// byte stand in the fourth position, the closing quote included.
+func c18r14(rc *core.RC) {
+	p := rc.P
+	fd := p.Func("encoder", "compactString")
+	if fd == nil || fd.Body == nil {
+		rc.Unknown("encoder.compactString", token.NoPos, "function not found")
+		return
+	}
+	info := p.Info(fd)
+	fn := p.FuncName(fd)
+	rc.Touch(fn)
+	le := &core.LinearEval{Info: info, Pkg: p.Pkg("encoder"), Body: fd.Body}
+	var clause *ast.CaseClause
+	ast.Inspect(fd.Body, func(m ast.Node) bool {
+		cc, ok := m.(*ast.CaseClause)
+		if !ok || len(cc.List) != 1 {
+			return true
+		}
+		if v, isC := core.ConstInt(info, cc.List[0]); isC && v == 'u' {
+			clause = cc
+		}
+		return true
+	})
+	key := fn + "/unicode-escape four-digits-examined-and-skipped"
+	if clause == nil {
+		rc.Unknown(key, fd.Pos(), "no clause for the escape letter u found")
+		return
+	}
+	var loop *ast.ForStmt
+	for _, st := range clause.Body {
+		if l, ok := st.(*ast.ForStmt); ok {
+			loop = l
+		}
+	}
+	if loop == nil || loop.Init == nil || loop.Cond == nil {
+		rc.Unknown(key, clause.Pos(), "no counted loop over the digits found in the clause")
+		return
+	}
+	init, ok := loop.Init.(*ast.AssignStmt)
+	cond, ok2 := core.Unparen(loop.Cond).(*ast.BinaryExpr)
+	if !ok || !ok2 || len(init.Lhs) != 1 || len(init.Rhs) != 1 || (cond.Op != token.LEQ && cond.Op != token.LSS) {
+		rc.Unknown(key, loop.Pos(), "the loop header is not of the form `i := L; i <= H` or `i < H`")
+		return
+	}
+	ivar, isID := init.Lhs[0].(*ast.Ident)
+	if !isID || core.ObjOf(info, cond.X) != core.ObjOf(info, ivar) {
+		rc.Unknown(key, loop.Pos(), "the loop condition does not test the loop variable")
+		return
+	}
+	lo, hi := le.Eval(init.Rhs[0]), le.Eval(cond.Y)
+	if cond.Op == token.LSS {
+		hi = hi.Sub(core.LinConst(1))
+	}
+	// the byte examined: src[X] with X linear in the loop variable
+	var idx core.Linear
+	ast.Inspect(loop.Body, func(m ast.Node) bool {
+		ix, isIx := m.(*ast.IndexExpr)
+		if !isIx || idx.OK {
+			return true
+		}
+		if t := info.TypeOf(ix.X); t == nil || t.String() != "[]byte" {
+			return true
+		}
+		x := le.Eval(ix.Index)
+		if x.OK && x.Terms[ivar.Name] == 1 {
+			idx = x
+		}
+		return true
+	})
+	if !lo.OK || !hi.OK || !idx.OK {
+		rc.Unknown(key, loop.Pos(), "the loop bounds or the index expression are not linear (%s, %s, %s)", lo, hi, idx)
+		return
+	}
+	// substitute the loop variable by its bounds: offsets relative to the cursor
+	at := func(bound core.Linear) core.Linear {
+		rest := idx
+		rest.Terms = map[string]int64{}
+		for k, v := range idx.Terms {
+			if k != ivar.Name {
+				rest.Terms[k] = v
+			}
+		}
+		return rest.Add(bound)
+	}
+	first, last := at(lo), at(hi)
+	off := func(l core.Linear) (int64, bool) {
+		for k, v := range l.Terms {
+			if v != 0 && !(k == "cursor" && v == 1) {
+				return 0, false
+			}
+		}
+		return l.Const, l.Terms["cursor"] == 1
+	}
+	f, okf := off(first)
+	l, okl := off(last)
+	// the advance behind the loop
+	adv, okAdv := int64(0), false
+	seenLoop := false
+	for _, st := range clause.Body {
+		if st == ast.Stmt(loop) {
+			seenLoop = true
+			continue
+		}
+		if !seenLoop {
+			continue
+		}
+		if as, isAs := st.(*ast.AssignStmt); isAs && len(as.Lhs) == 1 && len(as.Rhs) == 1 && isCursorExpr(as.Lhs[0]) {
+			switch as.Tok {
+			case token.ADD_ASSIGN:
+				if v, isC := core.ConstInt(info, as.Rhs[0]); isC {
+					adv, okAdv = v, true
+				}
+			case token.ASSIGN:
+				if a, isOff := off(le.Eval(as.Rhs[0])); isOff {
+					adv, okAdv = a, true
+				}
+			}
+		}
+	}
+	if !okf || !okl || !okAdv {
+		rc.Unknown(key, loop.Pos(), "offsets not relative to the cursor (first %s, last %s) or advance not found", first, last)
+		return
+	}
+	rc.Check(f == 1 && l == 4 && adv == 4, key, loop.Pos(), "behind `\\u` the bytes at cursor+%d … cursor+%d are tested for hexadecimal digits and the cursor then advances by %d (required: +1 … +4, then 4): a byte that is not examined can be anything, the closing quote included", f, l, adv)
+}
